@@ -877,7 +877,7 @@ impl Prop for C12 {
         "C12"
     }
     fn rule(&self) -> &'static str {
-        "(a) frame tables: assembler-built .debug_frame/.eh_frame sections (1-2 CIEs, 1-4 FDEs, CIE versions 1/3/4, both formats, address sizes 2/4/8, both byte orders, augmentations z/R/L/P/S with absolute/pc-relative/sized pointer encodings, code alignment factors 1..2^33 incl. 0x3f/0x40/255/256, data alignment factors incl. -128/-129/127/128/-2^33, every call-frame instruction incl. advances of every width around 0x3f/0x40/0xff/0x100/0xffff/0x10000, 64-bit offsets, expressions with branches) through FrameTable::from; (b) line programs in a one-entry unit (versions 2-5, both formats, address sizes 1-8, generated headers incl. opcode_base 1..255, non-standard standard-opcode lengths, min_inst_len 1/2/4, max_ops 1/2/4, v5 directory/file formats with inline and .debug_str/.debug_line_str forms, md5/size/time/source fields; programs of 1-6 sequences using every standard and extended opcode incl. set_address before/after rows, fixed_advance_pc, const_add_pc, define_file, unknown opcodes, tombstone addresses) through Dwarf::from or the stepwise read_line_program/read_sequence API; (c) forests of 1-3 units x 1-10 entries (versions 2-5, both formats, address sizes 4/8, compile and partial units) with every readable form: strings inline/strp/line_strp/strx1-4, addresses plain and addrx1-4/GNU_addr_index, references ref1/2/4/8/udata/ref_addr in-unit, forward, backward and cross-unit, data1-16/sdata/udata/implicit_const, block1/2/4, flags, range and location lists by offset and by index in both section generations incl. base-address/startx/offset-pair kinds, expressions with branches, calls, typed operations, implicit pointers and nested entry values referring to entries, file indices, sibling pointers, base types anywhere; (d) split compilations (DWARF 4 GNU extension and DWARF 5): a skeleton unit in the main file (dwo id, address-table base, DW_AT_GNU_ranges_base, low_pc) and the full unit in a .dwo section set (indexed strings through .debug_str_offsets.dwo, indexed addresses through the main file's .debug_addr, range lists in the main file's .debug_ranges behind the ranges base or in .debug_rnglists.dwo with implicit bases, location lists in the GNU .debug_loc.dwo format or .debug_loclists.dwo) converted with ConvertUnit::convert_split into one ordinary unit. Oracle: semantic dump through gimli::read of input vs convert+write output must be equal (unwind rows; line rows with resolved file names and the file table; forest with attribute meanings: strings by content, references by identity marker, lists by resolved ranges, expressions by decoded operations with branch targets as operation indices), or conversion/writing returns an error; converting the output again gives the same dump (byte-identical for frames). Non-trivial = compared case containing something the writer re-encodes (operand outside its integer widths, re-encoded CFI instruction, set_address after a row / fixed_advance_pc / define_file / VLIW, indexed or non-default forms); distinct by choice string."
+        "(a) frame tables: assembler-built .debug_frame/.eh_frame sections (1-2 CIEs, 1-4 FDEs, CIE versions 1/3/4, both formats, address sizes 2/4/8, both byte orders, augmentations z/R/L/P/S with absolute/pc-relative/sized pointer encodings, code alignment factors 1..2^33 incl. 0x3f/0x40/255/256, data alignment factors incl. -128/-129/127/128/-2^33, every call-frame instruction incl. advances of every width around 0x3f/0x40/0xff/0x100/0xffff/0x10000, 64-bit offsets, expressions with branches) through FrameTable::from; (b) line programs in a one-entry unit (versions 2-5, both formats, address sizes 1-8, generated headers incl. opcode_base 1..255, non-standard standard-opcode lengths, min_inst_len 1/2/4, max_ops 1/2/4, v5 directory/file formats with inline and .debug_str/.debug_line_str forms, md5/size/time/source fields; programs of 1-6 sequences using every standard and extended opcode incl. set_address before/after rows, fixed_advance_pc, const_add_pc, define_file, unknown opcodes, tombstone addresses) through Dwarf::from or the stepwise read_line_program/read_sequence API; (c) forests of 1-3 units x 1-10 entries (versions 2-5, both formats, address sizes 4/8, compile and partial units) with every readable form: strings inline/strp/line_strp/strx1-4, addresses plain and addrx1-4/GNU_addr_index, references ref1/2/4/8/udata/ref_addr in-unit, forward, backward and cross-unit, data1-16/sdata/udata/implicit_const, block1/2/4, flags, range and location lists by offset and by index in both section generations incl. base-address/startx/offset-pair kinds, expressions with branches, calls, typed operations, implicit pointers and nested entry values referring to entries, file indices, sibling pointers, base types anywhere; (d) split compilations (DWARF 4 GNU extension and DWARF 5): a skeleton unit in the main file (dwo id, address-table base, DW_AT_GNU_ranges_base, low_pc) and the full unit in a .dwo section set (indexed strings through .debug_str_offsets.dwo, indexed addresses through the main file's .debug_addr, range lists in the main file's .debug_ranges behind the ranges base or in .debug_rnglists.dwo with implicit bases, location lists in the GNU .debug_loc.dwo format or .debug_loclists.dwo) converted with ConvertUnit::convert_split into one ordinary unit. Oracle: semantic dump through gimli::read of input vs convert+write output must be equal (unwind rows; line rows with resolved file names and the file table; forest with attribute meanings: strings by content, references by identity marker, lists by resolved ranges, expressions by decoded operations with branch targets as operation indices), or conversion/writing returns an error; converting the output again gives the same dump (byte-identical for frames). Non-trivial = compared case containing something the writer re-encodes (operand outside its integer widths, re-encoded CFI instruction, set_address after a row / fixed_advance_pc / define_file / VLIW, indexed or non-default forms); distinct by choice string. Round-8 additions: writing unit by unit (ConvertUnit::write) may not refuse what the same conversion written in one go accepts; inputs with DW_OP_constx and DW_OP_GNU_variable_value."
     }
     fn assumptions(&self) -> Vec<&'static str> {
         vec![
